@@ -158,6 +158,9 @@ def build(spec):
     with contextlib.redirect_stdout(io.StringIO()):      # the catalogue lookup prints warnings
         o = lensgen.build(spec)
     extra = spec.get('c13') or {}
+    if extra.get('aperture_array'):
+        # the system aperture value handed over as a 0-d ndarray (a value that came out of a NumPy computation)
+        o.set_aperture(spec['aperture'][0], np.array(float(spec['aperture'][1])))
     if extra.get('fresnel'):
         o.surface_group.set_fresnel_coatings()
     if extra.get('polarization'):
@@ -192,6 +195,9 @@ def gen_spec(rng, variant=None, **kw):
                 s['coating'] = [rng.uniform(0.5, 1.0), rng.uniform(0.0, 0.4)]
         spec['c13'] = {'polarization': rng.choice(['H', 'V', 'unpolarized', 'H', 'V', 'L+45', 'RCP']),
                        'fresnel': mode == 'fresnel', 'coatings': mode}
+    # numeric settings are not always python floats: a 0-d ndarray aperture value is writable in place
+    if rng.random() < 0.3:
+        spec.setdefault('c13', {})['aperture_array'] = True
     # fields are not always entered in ascending order (a call that sorts the lens' own field list, or relies
     # on its order, must show up)
     if len(spec['fields']) > 1 and rng.random() < 0.6:
@@ -498,14 +504,17 @@ def interleaving(rng, spec, build, ops=None, length=None, heavy=True, record_mod
                          'history': list(hist)})
         s1 = lens_state(o)
         d = first_diff(state0, s1)
+        changed = False
         if d:
             viol.append({'kind': 'lens-state-changed', 'op': op, 'history': list(hist), 'diff': d})
-            state0 = s1
+            changed = True
         d1 = lens_dict(o)
         d = first_diff(dict0, d1)
         if d:
             viol.append({'kind': 'to_dict-changed', 'op': op, 'history': list(hist), 'diff': d})
-            dict0 = d1
+            changed = True
+        if changed:
+            break          # what follows on a changed lens is a consequence, not a further violation
         hist.append(op)
         if len(viol) > 20:
             break
@@ -1047,7 +1056,7 @@ def method_histories(rng, spec, build_fn, ops=None, repeats=2):
             d = first_diff(s_lens, l1)
             if d:
                 viol.append(base('lens-state-changed', diff=d, op={'op': 'method', 'cls': cname, 'method': q[0]}))
-                s_lens = l1
+                return viol, stats     # the lens is shared by all objects: stop, the rest would be consequences
             hist.append((q[0], q[1]))
             if len(viol) > 40:
                 return viol, stats
